@@ -17,6 +17,11 @@ pub use check::*;
 
 mod analysis;
 pub use analysis::*;
+
+#[cfg(slotted_egraphs_verif)]
+mod verif_hooks;
+#[cfg(slotted_egraphs_verif)]
+pub use verif_hooks::*;
 use vec_collections::AbstractVecSet;
 
 use std::cell::RefCell;
